@@ -445,12 +445,15 @@ def _search(sim: Simulator, tier: str, seed: int, cfg: Dict[str, Any], workers: 
     known = load_known_findings(sim.property_id)
     exit_code = 0
     reported = []
+    min_spent = 0.0
     for (rule, sig), v in sorted(viols.items()):
         def fails(c, rule=rule, sig=sig):
             r = run_one(sim, Tape.replay(c))
             return r.outcome == "VIOLATION" and r.rule == rule and r.sig == sig
         t1 = time.time()
-        mt = minimise(v["tape"], fails, budget=300) if fails(v["tape"]) else v["tape"]
+        tb = max(0.0, min(20.0, 90.0 - min_spent))
+        mt = minimise(v["tape"], fails, budget=300, time_budget=tb) if (tb > 0 and fails(v["tape"])) else v["tape"]
+        min_spent += time.time() - t1
         path = write_replay(sim, seed, v, mt)
         with open(path) as f:
             doc = json.load(f)
